@@ -109,8 +109,75 @@ def _probe(base, falsy_first):
     return p
 
 
+class _ProtocolFault(BaseException):
+    pass
+
+
+def run_attr_fault(case):
+    """the object's attribute protocol is user code too: `instance.__class__` raises while the fault is armed"""
+    import common
+    icontract = common.assert_repo_import()
+    armed = {"on": False}
+    exc_cls = {"Exception": RuntimeError, "BaseException": _ProtocolFault}[case["exc"]]
+
+    @icontract.invariant(lambda self: self.ok)
+    class K:
+        def __init__(self):
+            self.ok = True
+
+        def __getattribute__(self, name):
+            if name == "__class__" and armed["on"]:
+                raise exc_cls("the proxy is down")
+            return object.__getattribute__(self, name)
+
+        def m(self):
+            return 1
+
+        async def am(self):
+            return 2
+
+        def _break(self):
+            object.__setattr__(self, "ok", False)
+
+    def call(bound):
+        r = bound()
+        if hasattr(r, "send"):
+            try:
+                r.send(None)
+            except StopIteration as e:
+                return e.value
+        return r
+
+    o = K()
+    bound = o.am if case["async"] else o.m        # obtained while the protocol works
+    out = []
+    for step in case["steps"]:
+        try:
+            if step == "faulted-call":
+                armed["on"] = True
+                try:
+                    out.append(["ret", call(bound)])
+                finally:
+                    armed["on"] = False
+            elif step == "break":
+                o._break()
+                out.append(["ret", None])
+            else:
+                out.append(["ret", call(bound)])
+        except icontract.ViolationError:
+            out.append(["violation"])
+        except BaseException as e:  # noqa: B902
+            out.append(["raise", type(e).__name__])
+    return {"steps": out}
+
+
 def cases(tier, rng):
     thorough = tier == "thorough"
+    for a in (False, True):
+        for exc in ("Exception", "BaseException"):
+            for nf in (1, 2, 3):
+                yield "attribute-protocol-fault", {"dom": "attrfault", "async": a, "exc": exc,
+                                                   "steps": ["call"] + ["faulted-call"] * nf + ["call", "break", "call"]}
     # invariant wrappers: sequences of operations on instances in which invariants fail at any point,
     # followed by further operations in the same context (sync and async methods)
     for _ in range(6000 if thorough else 800):
@@ -207,6 +274,8 @@ def _model_step(step):
 
 
 def driver_inputs(case):
+    if case.get('dom') == 'attrfault':
+        return []
     if case.get('dom') == 'reentry':
         return [case]
     return _ck_driver_inputs(case)
@@ -218,6 +287,8 @@ def _ck_driver_inputs(case):
 
 
 def run_impl(case):
+    if case.get('dom') == 'attrfault':
+        return run_attr_fault(case)
     if case.get('dom') == 'reentry':
         return _C10.run_impl(case)
     return _ck_run_impl(case)
@@ -230,6 +301,8 @@ def _ck_run_impl(case):
 
 
 def model_view(case, mos):
+    if case.get('dom') == 'attrfault':
+        return {"attrfault": True}
     if case.get('dom') == 'reentry':
         return _C10.model_view(case, mos[0])
     return _ck_model_view(case, mos)
@@ -246,6 +319,8 @@ def _strip_repr(tr):
 
 
 def project(case, obs):
+    if case.get('dom') == 'attrfault':
+        return "untied"
     if case.get('dom') == 'reentry':
         return _C10.project(case, obs)
     return _ck_project(case, obs)
@@ -262,6 +337,19 @@ def _ck_project(case, obs):
 
 
 def spec(case, mos, io):
+    if case.get('dom') == 'attrfault':
+        want = []
+        for st in case["steps"]:
+            if st == "faulted-call":
+                want.append(["raise", "RuntimeError" if case["exc"] == "Exception" else "_ProtocolFault"])
+            elif st == "break":
+                want.append(["ret", None])
+            else:
+                want.append(["violation"] if "break" in case["steps"][:len(want)] else ["ret", 2 if case["async"] else 1])
+        if io["steps"] != want:
+            return ["after the attribute protocol of the object faulted inside the library, the outcomes were %s, expected %s "
+                    "(the fault surfaces, later calls are checked as in a fresh process)" % (io["steps"], want)]
+        return []
     if case.get('dom') == 'reentry':
         return _C10.spec(case, mos[0], io)
     return _ck_spec(case, mos, io)
@@ -311,6 +399,8 @@ def _ck_spec(case, mos, io):
 
 
 def classify(case, mos, io, fails):
+    if case.get('dom') == 'attrfault':
+        return "unclassified"
     if case.get('dom') == 'reentry':
         return _C10.classify(case, mos[0], io, fails)
     return _ck_classify(case, mos, io, fails)
@@ -321,6 +411,8 @@ def _ck_classify(case, mos, io, fails):
 
 
 def nontrivial_key(case, mos):
+    if case.get('dom') == 'attrfault':
+        return repr(case)
     if case.get('dom') == 'reentry':
         return _C10.nontrivial_key(case, mos[0])
     return _ck_nontrivial_key(case, mos)
@@ -332,6 +424,9 @@ def _ck_nontrivial_key(case, mos):
 
 
 def stats(case, mos, io, dist):
+    if case.get('dom') == 'attrfault':
+        dist["dom:attrfault"] += 1
+        return
     if case.get('dom') == 'reentry':
         return _C10.stats(case, mos[0], io, dist)
     return _ck_stats(case, mos, io, dist)
